@@ -1953,6 +1953,17 @@ class QuicConnection:
                 )
             )
             self._peer_cid_sequence_numbers.add(sequence_number)
+        elif sequence_number not in self._peer_cid_sequence_numbers:
+            # RFC 9000 section 5.1.2: a connection ID which arrives with a sequence
+            # number below an already processed Retire Prior To is retired at once.
+            self._peer_cid_sequence_numbers.add(sequence_number)
+            retire.append(
+                QuicConnectionId(
+                    cid=connection_id,
+                    sequence_number=sequence_number,
+                    stateless_reset_token=stateless_reset_token,
+                )
+            )
 
         # retire previous CIDs
         for quic_connection_id in retire:
